@@ -6,6 +6,7 @@
 import Csvq.Lemmas.Commit
 import Csvq.Gen.FsProto
 import Csvq.Ref.FsProto
+import Csvq.Lemmas.FileBytes
 namespace Csvq.C10
 open Csvq.Commit
 
@@ -42,6 +43,46 @@ def encodeAfterReset : List String → Bool → Bool → Bool
 theorem gen_encode_into_emptied_file :
     encodeAfterReset Csvq.Gen.fxTransactionCommit false false = true ∧
     (Csvq.Gen.fxTransactionCommit.filter (· = "encode")).length = 2 := by decide
+
+/-! ### the same at byte level (Model/FileBytes.lean: contents + write position, ftruncate / lseek / write) -/
+
+open Csvq.FileBytes in
+/-- truncate, rewind, write the pieces of the encoding, write the ending line break: the file then holds
+    EXACTLY the new encoding — for every earlier content of the file (the stale bytes of a failed earlier
+    COMMIT), every earlier write position, every way the encoder cuts its output into writes -/
+theorem reset_then_encode_exact (f : F) (enc : List (List Byte)) (lb : List Byte) :
+    (write (writes (seek0 (truncate0 f)) enc) lb).bytes = enc.flatten ++ lb := by
+  have h := scan_sound enc lb ["truncate", "seek", "encode", "write"] .none .written f trivial (by decide)
+  simpa [interp] using h.1
+
+open Csvq.FileBytes in
+/-- the loops of Transaction.Commit as regenerated from transaction.go on this run: two encode loops
+    (created, updated tables) whose bodies the byte-level scanner accepts, then the two swap loops, which
+    do not write into the file at all -/
+theorem gen_commit_loop_shape :
+    (loopBodies Csvq.Gen.fxTransactionCommit 1000).map (scan .none)
+      = [some .written, some .written, some .none, some .none] := by decide
+
+open Csvq.FileBytes in
+/-- hence each table's new file, as the regenerated loop body produces it, is byte for byte the new
+    encoding followed by the ending line break — whatever the file held before and wherever its
+    position was (the not-taken `if` around the line break is the case `lb = []`) -/
+theorem gen_encode_loops_write_exact_bytes :
+    ∀ body ∈ (loopBodies Csvq.Gen.fxTransactionCommit 1000).take 2,
+      ∀ (f : F) (enc : List (List Byte)) (lb : List Byte), (interp enc lb body f).bytes = enc.flatten ++ lb := by
+  intro body hb f enc lb
+  have hs : ∀ b ∈ (loopBodies Csvq.Gen.fxTransactionCommit 1000).take 2, scan .none b = some .written := by decide
+  exact (scan_sound enc lb body .none .written f trivial (hs body hb)).1
+
+open Csvq.FileBytes in
+/-- the discipline is necessary: without the truncation a shorter new encoding keeps a stale tail … -/
+theorem stale_tail_without_truncate :
+    (writes (seek0 ⟨[1, 2, 3, 4, 5], 5⟩) [[9]]).bytes = [9, 2, 3, 4, 5] := by decide
+
+open Csvq.FileBytes in
+/-- … and without the rewind the new encoding sits behind a block of NUL bytes -/
+theorem nul_block_without_seek :
+    (writes (truncate0 ⟨[1, 2, 3], 3⟩) [[9]]).bytes = [0, 0, 0, 9] := by decide
 
 /-- the structured effect list of Transaction.Commit is the reviewed one -/
 theorem gen_txcommit_eq_ref : Csvq.Gen.fxTransactionCommit = Csvq.Ref.fxTransactionCommit := by decide
